@@ -1027,8 +1027,15 @@ impl FutWait {
 
 impl Wait for FutWait {
     #[cold]
-    fn wait(&self, _seq: usize, _w_pos: &AtomicUsize, _wc: &AtomicUsize) {
-        panic!("Somehow normal wait got called in futures queue");
+    fn wait(&self, seq: usize, w_pos: &AtomicUsize, wc: &AtomicUsize) {
+        // Reached by the direct blocking recv() of the futures receivers, which
+        // has no task to park: wait like the yielding strategy does.
+        loop {
+            if check(seq, w_pos, wc) {
+                return;
+            }
+            yield_now();
+        }
     }
 
     fn notify(&self) {
